@@ -476,7 +476,7 @@ package objects
 //@ func (sq *Queue) UnReserve(appID string, releases int)
 //@   props C09
 //@   mode nopanic=off
-//@   requires 0 <= releases && releases < 4611686018427387904
+//@   holds 0 <= releases && releases < 4611686018427387904
 //@   assigns sq.reservedApps[*]
 //@   ensures[dec] old(appID in sq.reservedApps) && old(sq.reservedApps[appID]) > releases ==> sq.reservedApps[appID] == old(sq.reservedApps[appID]) - releases && (appID in sq.reservedApps)
 //@   ensures[zero] !old(appID in sq.reservedApps) || old(sq.reservedApps[appID]) <= releases ==> !(appID in sq.reservedApps)
@@ -702,13 +702,14 @@ package objects
 
 // removing a bound allocation takes exactly its size out of the total it was booked into, un-lists it and credits the user
 //@ func (sa *Application) removeAllocationInternal(allocationKey string, releaseType si.TerminationType) (removed *Allocation)
-//@   props C03 C05 C06
+//@   props C03 C05 C06 C10
 //@   mode nopanic=off
 //@   ensures[found] removed == old(sa.allocations[allocationKey])
 //@   ensures[placeholder] removed != nil && removed.placeholder ==> (forall t Key :: rv(sa.allocatedPlaceholder, t) == clamp64(old(rv(sa.allocatedPlaceholder, t)) - rv(removed.allocatedResource, t))) && sa.allocatedResource == old(sa.allocatedResource)
 //@   ensures[real] removed != nil && !removed.placeholder ==> (forall t Key :: rv(sa.allocatedResource, t) == clamp64(old(rv(sa.allocatedResource, t)) - rv(removed.allocatedResource, t))) && sa.allocatedPlaceholder == old(sa.allocatedPlaceholder)
 //@   ensures[unlisted] removed != nil ==> !(allocationKey in sa.allocations)
 //@   ensures[absent] removed == nil ==> sa.allocatedResource == old(sa.allocatedResource) && sa.allocatedPlaceholder == old(sa.allocatedPlaceholder)
+//@   at[complete:C10] call objects.Application.HandleApplicationEvent#1: assert arg1 != CompleteApplication || appZero(sa) || (appState(sa) == "Completing" && alloc.placeholder)
 //@   at[userph] call objects.Application.decUserResourceUsage#1: assert alloc.placeholder && arg1 == alloc.allocatedResource && arg0 == sa
 //@   at[userreal] call objects.Application.decUserResourceUsage#2: assert !alloc.placeholder && arg1 == alloc.allocatedResource && arg0 == sa
 
@@ -730,10 +731,11 @@ package objects
 // removing everything: the user is credited with exactly what the application still holds (real + placeholder),
 // both totals return to zero and nothing stays listed
 //@ func (sa *Application) RemoveAllAllocations() (released []*Allocation)
-//@   props C03 C05
+//@   props C03 C05 C10
 //@   sweep
 //@   mode nopanic=off
 //@   ensures[zero] (forall t Key :: rv(sa.allocatedResource, t) == 0 && rv(sa.allocatedPlaceholder, t) == 0) && (forall k string :: !(k in sa.allocations))
+//@   at[complete:C10] call objects.Application.HandleApplicationEvent#1: assert arg1 == CompleteApplication && (forall t Key :: rv(sa.pending, t) == 0) && (forall t Key :: rv(sa.allocatedResource, t) == 0)
 //@   at[credited] call resources.NewResource#1: assert usercredited(sa) || usernottracked(sa) || ((forall t Key :: rv(sa.allocatedResource, t) == 0) && (forall t Key :: rv(sa.allocatedPlaceholder, t) == 0))
 //@   at[credit] call objects.Application.decUserResourceUsage#1 after: assume usercredited(sa)
 //@   at[creditarg] call objects.Application.decUserResourceUsage#1: assert forall t Key :: rv(arg1, t) == clamp64(rv(sa.allocatedResource, t) + rv(sa.allocatedPlaceholder, t))
@@ -818,3 +820,56 @@ package objects
 //@   mode nopanic=off
 //@   ensures proto == nil ==> sn == nil
 //@   ensures[inv] sn != nil ==> fresh(sn) && inv_own(sn) && inv_L1(sn) && inv_maps(sn) && inv_resv(sn) && inv_exclusive(sn)
+
+// ================================================================ C10: application life cycle
+
+// the documented life cycle, written out from the property statement (self transitions are not state changes)
+//@ transitions eventDesc props C10 : New>Accepted New>Rejected New>Failing New>Resuming Accepted>Running Accepted>Completing Accepted>Failing Accepted>Resuming Running>Completing Running>Failing Completing>Running Completing>Completed Failing>Failed Resuming>Accepted Completed>Expired Failed>Expired Rejected>Expired
+
+//@ spec evName(i int) string = i == 0 ? "runApplication" : i == 1 ? "rejectApplication" : i == 2 ? "completeApplication" : i == 3 ? "failApplication" : i == 4 ? "expireApplication" : "resumeApplication"
+//@ func (ae applicationEvent) String() (s string)
+//@   props C10
+//@   pure
+//@   requires 0 <= ae && ae <= 5
+//@   ensures s == evName(ae)
+
+//@ spec appZero(a *Application) bool = (forall t Key :: rv(a.pending, t) == 0) && (forall t Key :: rv(a.allocatedResource, t) == 0)
+
+//@ func (sa *Application) hasZeroAllocations() (z bool)
+//@   props C10
+//@   pure
+//@   mode nopanic=off
+//@   ensures z <==> appZero(sa)
+
+//@ func (sa *Application) IsCompleting() (r bool)
+//@   props C10
+//@   pure
+//@   mode nopanic=off
+//@   ensures r == (appState(sa) == "Completing")
+
+//@ func (sa *Application) IsFailing() (r bool)
+//@   props C10
+//@   pure
+//@   mode nopanic=off
+//@   ensures r == (appState(sa) == "Failing")
+
+//@ func (sa *Application) IsResuming() (r bool)
+//@   props C10
+//@   pure
+//@   mode nopanic=off
+//@   ensures r == (appState(sa) == "Resuming")
+
+// the state timer only fires its event if the application is still in the state the timer was armed for
+//@ func (sa *Application) timeoutStateTimer$calls(objects.Application.HandleApplicationEvent)()
+//@   props C10
+//@   sweep
+//@   mode nopanic=off
+//@   at[recheck] call objects.Application.HandleApplicationEvent#1: assert arg0 == sa && arg1 == event && appState(sa) == expectedState
+
+// completion is only requested when nothing is outstanding: no pending ask, no real allocation (and, when asks are
+// removed, no placeholder allocation and not already completing or failing)
+//@ func (sa *Application) removeAsksInternal(allocKey string, detail si.EventRecord_ChangeDetail) (n int)
+//@   props C10
+//@   sweep
+//@   mode nopanic=off
+//@   at[nothingleft] call objects.Application.HandleApplicationEvent#1: assert arg1 == CompleteApplication && appZero(sa) && appState(sa) != "Completing" && appState(sa) != "Failing"
